@@ -45,6 +45,14 @@
 //	              fully instantiated generic types outside them (F67)
 //	namedtypes    arguments of NAMED function / slice / map / chan types for every function-consuming and list plugin
 //	              (`type Step func() (int, error)`; deriveDo(a, b Step) …): code that type-checks or a message, never a panic
+//	spread        every plugin: the last argument spread with `...` (nominal slice argument, an extra slice, the only argument) (F92)
+//	constants     untyped constants of every kind (bool, int, float, complex, rune, string) as arguments of the type-directed
+//	              plugins, alone and mixed with typed values (F97)
+//	multivalue    a multi-valued or a void call as an argument, in every argument position of every plugin (F98)
+//	localtypes    types declared inside a function (struct, slice, map, pointer to them) as arguments, and the legitimate case of
+//	              a local named type served by the function generated for a package-level type (F104)
+//	chandirs      send-only / receive-only / bidirectional channels at every level for dup, the three channel forms of join,
+//	              fmap over channels and pipeline (F93–F95)
 //	nonascii      well-typed, supported: type names of 1-3 non-ASCII letters (2-, 3- and 4-byte letters), the
 //	              same type name in two or three imported packages, with helper requests (or user functions)
 //	              that already took prefix, prefix_ and every letter prefix of the name, so that the fresh-name
@@ -390,6 +398,10 @@ var badExprs = []struct{ expr, what, typ string }{
 	{"[][]chan int{}", "slice of slice of chan", "[][]chan int"},
 	{"[]string{}", "slice of string", "[]string"},
 	{"new(int)", "pointer", "*int"},
+	{"func(xs ...int) bool { return true }", "variadic predicate", "func(xs ...int) bool"},
+	{"func(xs ...int) string { return \"\" }", "variadic one-parameter func returning string", "func(xs ...int) string"},
+	{"func(xs ...int) (string, error) { return \"\", nil }", "variadic one-parameter func returning (string, error)", "func(xs ...int) (string, error)"},
+	{"func(xs ...string) <-chan float64 { return nil }", "variadic one-parameter func returning a chan", "func(xs ...string) <-chan float64"},
 }
 
 func genBadArgs(prefixes map[string]string) {
@@ -848,6 +860,16 @@ var (
 		d(pl, "predicate returns int", "FN(predInt, xs)", "")
 		d(pl, "predicate returns two values", "FN(f22, xs)", "")
 	}
+	// variadic one-parameter functions whose parameter type ([]int) IS the element type of the list (F96)
+	for _, pl := range []string{"all", "any", "filter", "takewhile"} {
+		d(pl, "variadic predicate over a slice of slices", "FN(func(xs ...int) bool { return true }, [][]int{})", "", "variadic", "func(xs ...int) bool")
+	}
+	d("fmap", "variadic function over a slice of slices", "FN(func(xs ...int) string { return \"\" }, [][]int{})", "", "variadic", "func(xs ...int) string")
+	d("fmap", "variadic function over a chan of slices", "FN(func(xs ...int) string { return \"\" }, make(chan []int))", "", "variadic", "func(xs ...int) string")
+	d("fmap", "variadic function, error form", "FN(func(xs ...int) string { return \"\" }, func() ([]int, error) { return nil, nil })", "", "variadic", "func(xs ...int) string")
+	d("traverse", "variadic function over a slice of slices", "FN(func(xs ...int) (string, error) { return \"\", nil }, [][]int{})", "", "variadic", "func(xs ...int) (string, error)")
+	d("mem", "variadic one-parameter function", "FN(func(xs ...int) int { return 0 })", "", "variadic")
+	d("pipeline", "variadic stage functions", "FN(func(xs ...int) <-chan []string { return nil }, func(ss ...string) <-chan int { return nil })", "", "variadic")
 	// compose / do / traverse
 	d("compose", "result and parameter counts of consecutive stages differ", "FN(stage1, stage2)", "")
 	d("compose", "result type not assignable to the next parameter", "FN(fint2, stage2)", "func fint2(a int) (int, error) { return a, nil }\n")
@@ -1286,6 +1308,185 @@ var (
 	}
 }
 
+// ---------------------------------------------------------------- families: spread, constants, multivalue, localtypes, chandirs
+
+type nominal struct {
+	plugin, decls string
+	args          []string
+}
+
+// nominalCalls: one valid call per plugin (all 33), arguments are package-level variables / functions
+func nominalCalls() []nominal {
+	out := []nominal{}
+	for _, fp := range fplugins {
+		out = append(out, nominal{fp.name, fp.decls, fp.args})
+	}
+	tdecl := "type T struct {\n\tA int\n\tB []string\n}\n\nvar (\n\tpa, pb *T\n\tm  map[string]*T\n\tss []string\n\tis, js []int\n\tps []*T\n)\n"
+	for _, v := range []struct {
+		pl   string
+		args []string
+	}{{"equal", []string{"pa", "pb"}}, {"compare", []string{"pa", "pb"}}, {"hash", []string{"pa"}}, {"deepcopy", []string{"pa", "pb"}},
+		{"clone", []string{"pa"}}, {"gostring", []string{"pa"}}, {"keys", []string{"m"}}, {"sort", []string{"ss"}}, {"set", []string{"is"}},
+		{"min", []string{"is", "0"}}, {"max", []string{"is", "0"}}, {"contains", []string{"ss", "\"a\""}}, {"intersect", []string{"is", "js"}},
+		{"union", []string{"is", "js"}}, {"unique", []string{"ps"}}} {
+		out = append(out, nominal{v.pl, tdecl, v.args})
+	}
+	return out
+}
+
+func genSpreadConstMulti(prefixes map[string]string) {
+	extra := "\nvar rest []int\n\nvar anys []interface{}\n\nfunc two() (int, string) { return 0, \"\" }\n\nfunc void() {}\n\nfunc three() (int, int, error) { return 0, 0, nil }\n"
+	for _, n := range nominalCalls() {
+		pre, ok := prefixes[n.plugin]
+		if !ok {
+			continue
+		}
+		emit := func(family, what string, args []string) {
+			fn := pre + "X"
+			src := "package PKGDIR\n\nimport \"unsafe\"\n\nvar _ unsafe.Pointer\n\n" + n.decls + extra + "\nfunc Use() {\n\t" + fn + "(" + strings.Join(args, ", ") + ")\n}\n"
+			add(caseT{Family: family, Plugin: n.plugin, What: what + ": " + fn + "(" + strings.Join(args, ", ") + ")", Call: fn,
+				Names: []string{fn, "...", "spread", "two()", "void()", "three()", "value", "(int, string)", "()", "(int, int, error)"}, Unsupp: true}, map[string]string{"u.go": src})
+		}
+		last := append([]string{}, n.args...)
+		last[len(last)-1] += "..."
+		emit("spread", "last nominal argument spread", last)
+		emit("spread", "an extra slice spread after the nominal arguments", append(append([]string{}, n.args...), "rest..."))
+		emit("spread", "the only argument is a spread slice", []string{"anys..."})
+		emit("spread", "first argument only, spread", []string{n.args[0] + "..."})
+		for i := range n.args {
+			for _, mv := range []string{"two()", "void()", "three()"} {
+				a := append([]string{}, n.args...)
+				a[i] = mv
+				emit("multivalue", fmt.Sprintf("argument %d is the call %s", i, mv), a)
+			}
+		}
+		emit("multivalue", "the only argument is a two-valued call", []string{"two()"})
+		emit("multivalue", "the only argument is a void call", []string{"void()"})
+	}
+	// untyped constants
+	consts := []struct{ kind, a, b string }{
+		{"bool", "true", "false"}, {"int", "1", "2"}, {"float", "1.5", "2.5"}, {"complex", "1i", "2i"}, {"rune", "'a'", "'b'"}, {"string", "\"a\"", "\"b\""},
+		{"constant expression", "1 + 2", "3 * 4"}, {"typed constant", "int8(1)", "int8(2)"},
+	}
+	for _, c := range consts {
+		for _, v := range []struct{ pl, what string; args []string }{
+			{"equal", "two constants", []string{c.a, c.b}}, {"equal", "curried, one constant", []string{c.a}},
+			{"compare", "two constants", []string{c.a, c.b}}, {"compare", "curried, one constant", []string{c.a}},
+			{"hash", "a constant", []string{c.a}}, {"gostring", "a constant", []string{c.a}}, {"clone", "a constant", []string{c.a}},
+			{"min", "two constants", []string{c.a, c.b}}, {"max", "two constants", []string{c.a, c.b}},
+			{"tuple", "two constants", []string{c.a, c.b}}, {"tuple", "a constant and a variable", []string{c.a, "x"}},
+			{"contains", "constant item", []string{sliceFor(c.kind), c.a}}, {"min", "slice and constant default", []string{sliceFor(c.kind), c.a}},
+			{"max", "slice and constant default", []string{sliceFor(c.kind), c.a}},
+			{"compare", "a variable and a constant", []string{varFor(c.kind), c.a}}, {"equal", "a constant and a variable", []string{c.a, varFor(c.kind)}},
+			{"set", "a constant", []string{c.a}}, {"keys", "a constant", []string{c.a}}, {"sort", "a constant", []string{c.a}}, {"unique", "a constant", []string{c.a}},
+			{"deepcopy", "two constants", []string{c.a, c.b}}, {"union", "two constants", []string{c.a, c.b}},
+		} {
+			fn := prefixes[v.pl] + "Const"
+			src := "package PKGDIR\n\nvar (\n\tx  int\n\tf  float64\n\tb  bool\n\tc  complex128\n\tr  rune\n\ts  string\n\ti8 int8\n\txs []int\n\tfs []float64\n\tbs []bool\n\tcs []complex128\n\trs []rune\n\tss []string\n\ti8s []int8\n)\n\nfunc Use() {\n\t" + fn + "(" + strings.Join(v.args, ", ") + ")\n}\n"
+			tag := ""
+			if v.pl == "clone" {
+				tag = "untyped-constant:clone"
+			}
+			add(caseT{Family: "constants", Plugin: v.pl, What: "untyped " + c.kind + " constant, " + v.what + ": " + strings.Join(v.args, ", "), Call: fn,
+				Names: []string{fn, "untyped", "constant", "int", "float64", "bool", "string", "complex128", "rune", "int32", "int8"}, Unsupp: true, Tag: tag}, map[string]string{"u.go": src})
+		}
+	}
+}
+
+// a variable / slice whose type the constant of that kind is assignable to (so that the user's call is well-typed)
+func varFor(kind string) string {
+	return map[string]string{"bool": "b", "int": "x", "float": "f", "complex": "c", "rune": "r", "string": "s", "constant expression": "x", "typed constant": "i8"}[kind]
+}
+
+func sliceFor(kind string) string {
+	return map[string]string{"bool": "bs", "int": "xs", "float": "fs", "complex": "cs", "rune": "rs", "string": "ss", "constant expression": "xs", "typed constant": "i8s"}[kind]
+}
+
+func genLocalTypes(prefixes map[string]string) {
+	locals := []struct{ what, decl, typ, val string }{
+		{"local struct", "type L struct{ A []int }", "*L", "&L{}"},
+		{"local struct by value", "type L struct{ A []int }", "L", "L{}"},
+		{"local named slice", "type L []int", "L", "L{1}"},
+		{"local named map", "type L map[string][]int", "L", "L{}"},
+		{"slice of a local struct", "type L struct{ A []int }", "[]L", "[]L{}"},
+		{"map to a local struct", "type L struct{ A []int }", "map[string]L", "map[string]L{}"},
+		{"local type inside a package-level struct literal type", "type L struct{ A []int }", "struct{ F L }", "struct{ F L }{}"},
+		{"local named func", "type L func(int) string", "L", "L(nil)"},
+		{"local named int", "type L int", "L", "L(1)"},
+	}
+	for _, tp := range typedPlugins() {
+		for _, l := range locals {
+			fn := prefixes[tp.name] + "Local"
+			var call string
+			at := l.val
+			switch {
+			case tp.arg("X") == "[]X":
+				at = "[]" + l.typ + "{" + l.val + "}"
+			case tp.name == "keys":
+				at = "map[string]" + l.typ + "{}"
+			}
+			_, body := tp.call(fn)
+			call = strings.ReplaceAll(strings.ReplaceAll(body, "a[0]", "v[0]"), "(a", "(v")
+			call = strings.ReplaceAll(call, ", b)", ", w)")
+			src := "package PKGDIR\n\nfunc Use() {\n\t" + l.decl + "\n\tv, w := " + at + ", " + at + "\n\t_, _ = v, w\n\t" + call + "\n}\n"
+			add(caseT{Family: "localtypes", Plugin: tp.name, What: l.what + ": " + at, Call: fn, Names: []string{fn, "L", "inside a function", "local"}, Unsupp: true},
+				map[string]string{"u.go": src})
+		}
+		// legit: a local named type whose values are assignable to the parameter of the function generated for a package-level type
+		if tp.name == "equal" || tp.name == "compare" || tp.name == "hash" {
+			fn := prefixes[tp.name] + "Shared"
+			at := tp.arg("int")
+			if tp.name == "equal" || tp.name == "compare" || tp.name == "hash" {
+				at = "[]int"
+			}
+			params, body := tp.call(fn)
+			_, body2 := tp.call(fn)
+			body2 = strings.ReplaceAll(strings.ReplaceAll(strings.ReplaceAll(body2, "a[0]", "v[0]"), "(a", "(v"), ", b)", ", w)")
+			src := "package PKGDIR\n\nfunc Top(" + params(at) + ") {\n\t" + body + "\n}\n\nfunc Use() {\n\ttype L " + at + "\n\tv, w := L{1}, L{2}\n\t_, _ = v, w\n\t" + body2 + "\n}\n"
+			add(caseT{Family: "localtypes", Plugin: tp.name, What: "local named type served by the function of a package-level type (" + at + ")", Call: fn, Names: []string{fn, "L"}, MustOK: true},
+				map[string]string{"u.go": src})
+		}
+	}
+	for _, v := range []struct{ pl, call string }{
+		{"fmap", "FN(func(l L) int { return 0 }, []L{})"}, {"filter", "FN(func(l L) bool { return true }, []L{})"},
+		{"tuple", "FN(L{}, 1)"}, {"mem", "FN(func(l L) int { return 0 })"}, {"curry", "FN(func(l L, i int) bool { return true })"},
+		{"join", "FN([][]L{})"}, {"dup", "FN(make(<-chan L))"}, {"compose", "FN(func() (L, error) { return L{}, nil }, func(l L) (int, error) { return 0, nil })"},
+		{"do", "FN(func() (L, error) { return L{}, nil }, func() (int, error) { return 0, nil })"}, {"traverse", "FN(func(l L) (int, error) { return 0, nil }, []L{})"},
+	} {
+		fn := prefixes[v.pl] + "Local"
+		src := "package PKGDIR\n\nfunc Use() {\n\ttype L struct{ A []int }\n\t" + strings.ReplaceAll(v.call, "FN", fn) + "\n}\n"
+		add(caseT{Family: "localtypes", Plugin: v.pl, What: "local struct in " + v.call, Call: fn, Names: []string{fn, "L", "inside a function"}, Unsupp: true}, map[string]string{"u.go": src})
+	}
+}
+
+func genChanDirs(prefixes map[string]string) {
+	dirs := []string{"chan", "<-chan", "chan<-"}
+	emit := func(pl, what, decls, call string) {
+		fn := prefixes[pl] + "Dir"
+		src := "package PKGDIR\n\n" + decls + "\nfunc Use() {\n\t" + strings.ReplaceAll(call, "FN", fn) + "\n}\n"
+		tag := ""
+		if strings.Contains(decls+call, "chan<-") && (pl == "fmap" || pl == "join") {
+			tag = "send-only-chan:" + pl
+		}
+		add(caseT{Family: "chandirs", Plugin: pl, What: what, Call: fn, Names: []string{fn, "chan", "send"}, Unsupp: true, Tag: tag}, map[string]string{"u.go": src})
+	}
+	for _, d := range dirs {
+		emit("dup", "dup of "+d+" int", "var c "+d+" int\n", "FN(c)")
+		emit("fmap", "fmap over "+d+" int", "var c "+d+" int\n\nfunc f(i int) string { return \"\" }\n", "FN(f, c)")
+		emit("join", "join of a slice of "+d+" int", "var cs []"+d+" int\n", "FN(cs)")
+		for _, d2 := range dirs {
+			emit("join", "join of "+d+" ("+d2+" int)", "var cc "+d+" ("+d2+" int)\n", "FN(cc)")
+			emit("join", "join of a "+d+" int and a "+d2+" int", "var c1 "+d+" int\n\nvar c2 "+d2+" int\n", "FN(c1, c2)")
+			emit("pipeline", "pipeline of functions returning "+d+" string and "+d2+" float64",
+				"func f(a int) "+d+" string { return nil }\n\nfunc g(s string) "+d2+" float64 { return nil }\n", "FN(f, g)")
+			emit("fmap", "fmap of a function returning a "+d2+" chan over "+d+" int", "var c "+d+" int\n\nfunc f(i int) "+d2+" string { return nil }\n", "FN(f, c)")
+		}
+		emit("equal", "equal of "+d+" int", "var a, b "+d+" int\n", "FN(a, b)")
+		emit("tuple", "tuple with a "+d+" int", "var c "+d+" int\n", "FN(c, 1)")
+		emit("mem", "mem of a function over "+d+" int", "func f(c "+d+" int) int { return 0 }\n", "FN(f)")
+	}
+}
+
 // ---------------------------------------------------------------- family: xtest
 
 func genXTest() {
@@ -1478,6 +1679,9 @@ func main() {
 	genBroken()
 	genAliasClash()
 	genUnresolved(prefixes)
+	genSpreadConstMulti(prefixes)
+	genLocalTypes(prefixes)
+	genChanDirs(prefixes)
 	genGenerics(prefixes)
 	genNamedTypes(prefixes)
 	genDiagnostics(prefixes)
